@@ -6,7 +6,7 @@ package document
 
 // New: a document made only of objects and containers allocated by the call.
 //@ func New
-//@ props C17, C10
+//@ props C17, C10, C15
 //@ modifies nothing
 //@ ensures fresh(result) && docParts(result) && result.nextImageID == 0
 //@ ensures mediaFresh(result)
@@ -17,6 +17,9 @@ package document
 //@ ensures result.relationships != nil && fresh(result.relationships) && freshArr(result.relationships.Relationships)
 //@ ensures result.numberingManager == nil && result.footnoteManager == nil
 //@ ensures forall k string :: has(result.parts, k) ==> freshArr(result.parts[k])
+// (C15/C02) what the notes calls require of a document (zz_contracts_verif_notes.go): no registry yet, hence a good one; the package
+// and the document relationship lists are two objects
+//@ ensures fnDocOK(result) && result.relationships != result.documentRelationships
 
 // The numbering / footnote registries of the clone are fresh managers with fresh maps holding the same
 // entries. The registered definition objects themselves (*AbstractNum, *NumInstance, *Footnote, *Endnote)
@@ -42,13 +45,16 @@ package document
 //@   invariant forall k string :: (has(c.numInstances, k) <==> seen(k)) && (seen(k) ==> has(m.numInstances, k) && c.numInstances[k] == m.numInstances[k])
 
 //@ func (*FootnoteManager).clone
-//@ props C17
+//@ props C17, C15
 //@ modifies nothing
 //@ ensures m == nil ==> result == nil
 //@ ensures m != nil ==> fresh(result) && result.footnotes != nil && fresh(result.footnotes) && result.endnotes != nil && fresh(result.endnotes)
 //@ ensures m != nil ==> result.nextFootnoteID == m.nextFootnoteID && result.nextEndnoteID == m.nextEndnoteID
 //@ ensures m != nil ==> forall k string :: (has(result.footnotes, k) <==> has(m.footnotes, k)) && (has(m.footnotes, k) ==> result.footnotes[k] == m.footnotes[k])
 //@ ensures m != nil ==> forall k string :: (has(result.endnotes, k) <==> has(m.endnotes, k)) && (has(m.endnotes, k) ==> result.endnotes[k] == m.endnotes[k])
+// (C15) the copy of a registry that satisfies the registry invariant (zz_contracts_verif_notes.go) satisfies it: same notes under
+// the same keys, same next ids, so no id of the source is ever handed out again by the copy
+//@ ensures m != nil && fnRegOK(m) ==> fnRegOK(result)
 //@ loop 1
 //@   invariant unchangedHeap() && c != nil && fresh(c) && c.footnotes != nil && fresh(c.footnotes) && c.endnotes != nil && fresh(c.endnotes)
 //@   invariant c.nextFootnoteID == m.nextFootnoteID && c.nextEndnoteID == m.nextEndnoteID
